@@ -35,12 +35,15 @@ DIAGNOSTICS = {
     'syntax': ['bad = (1,', 'if True print(1)', '    indented = 1', 'x = = 2'],
     'runtime': ['crash = 1 / 0', 'print(name_that_is_not_defined)', 'boom = [1, 2][7]', "oops = int('x')",
                 'def inner_fail():\n    return {}["k"]\ninner_fail()'],
-    'tifa': ['print(never_set_variable)', 'unused_thing = 5', 'total = total_missing + 1', 'later = 1\nlater = "s" + 2'],
+    'tifa': ['print(never_set_variable)', 'unused_thing = 5', 'total = total_missing + 1', 'later = 1\nlater = "s" + 2',
+             # issue kinds that TIFA locates through the offending node rather than through the statement being visited
+             'for ch in 5:\n    print(ch)', 'nothing = []\nfor each in nothing:\n    print(each)', 'number = 1\nnumber.append(4)\nprint(number)',
+             'again = [1, 2]\nfor again in again:\n    print(again)'],
 }
 
 _chunk = st.fixed_dictionaries({
     'lines': st.lists(st.sampled_from(list(range(len(GOOD_LINES))) + [0, 1, 2]), max_size=4),
-    'diag': st.one_of(st.none(), st.tuples(st.sampled_from(sorted(DIAGNOSTICS)), st.integers(0, 4), st.integers(0, 4)).map(list), st.tuples(st.sampled_from(sorted(DIAGNOSTICS)), st.integers(0, 4), st.integers(0, 4)).map(list)),
+    'diag': st.one_of(st.none(), st.tuples(st.sampled_from(sorted(DIAGNOSTICS)), st.integers(0, 39), st.integers(0, 4)).map(list), st.tuples(st.sampled_from(sorted(DIAGNOSTICS)), st.integers(0, 39), st.integers(0, 4)).map(list)),
     'trailing_blank': st.booleans(),
 })
 _setup = st.fixed_dictionaries({
